@@ -22,7 +22,7 @@ from engine.facts import callee_name, callee_matches
 from engine import prov as P
 from rules import shared, util
 
-SPEC = "/verif/spec"
+SPEC = os.path.join(os.path.dirname(os.path.dirname(os.path.abspath(__file__))), "spec")
 
 
 def _labels(ctx, b, op):
@@ -365,6 +365,13 @@ def run(ctx, out, tier):
             continue
         ck0 = s["ckey"]
         if ck0 not in table:
+            # an invariant of a type (`Position.character >= 1`) holds wherever the expression is written
+            tail = ck0.split("|", 1)[1] if "|" in ck0 else ck0
+            for tk, tv in table.items():
+                if tv.get("anyfile") and tk.split("|", 1)[1] == tail:
+                    ck0 = tk
+                    break
+        if ck0 not in table:
             # an index that is a field of a local (`self.idx`, a destructured argument struct) is an index held
             # in a variable: the reviewed argument for `v[i]` in this file covers it
             m_al = re.match(r"^(.*\|index-[a-z]+\|[^\[\]]*)\[\.\w+\]$", ck0)
@@ -482,7 +489,7 @@ def release_profile_census(ctx, debug_sites):
         env = dict(os.environ)
         env["BWFACTS_EXTRA_ARGS"] = "-Coverflow-checks=off -Cdebug-assertions=off"
         env["BWFACTS_NONCE"] = "dist"
-        r = subprocess.run(["/verif/extract.sh", os.environ.get("BW_REPO", "/repo"), os.path.join(base, "facts")], env=env, capture_output=True, text=True)
+        r = subprocess.run([os.path.join(os.path.dirname(SPEC), "extract.sh"), os.environ.get("BW_REPO", "/repo"), os.path.join(base, "facts")], env=env, capture_output=True, text=True)
         if r.returncode != 0:
             return {"error": "extraction under release flags failed"}
         c2 = Ctx(os.path.join(base, "facts"))
